@@ -30,7 +30,8 @@ Proof. split; [apply perm_swap|]. repeat split; vm_compute; reflexivity. Qed.
 
 (* unsorted iteration: the export follows the enumeration *)
 Definition it_files : list pfile :=
-  [ {| pf_path := [nm "n.c"]; pf_nodes := [[1]] |}; {| pf_path := [nm "m.c"]; pf_nodes := [[1]] |} ].
+  [ {| pf_path := [nm "n.c"]; pf_real := [nm "n.c"]; pf_nodes := [[1]] |};
+    {| pf_path := [nm "m.c"]; pf_real := [nm "m.c"]; pf_nodes := [[1]] |} ].
 Lemma iteration_old_order_dependent :
   Permutation it_files (rev it_files) /\ NoDup (map pf_path it_files) /\
   map (cov_record []) (iter_codebase_old it_files) <> map (cov_record []) (iter_codebase_old (rev it_files)) /\
